@@ -732,9 +732,44 @@ def translate_unions(repo: Path):
     return {"literal_pairs": pairs}
 
 
+def translate_disambig(repo: Path):
+    file = "src/cattrs/disambiguators.py"
+    mod = ast.parse((repo / file).read_text())
+    fn = [n for n in mod.body if isinstance(n, ast.FunctionDef) and n.name == "create_default_dis_func"]
+    if len(fn) != 1:
+        raise T1Unrecognised(file, 0, "create_default_dis_func not found")
+    tests = []
+    for n in ast.walk(fn[0]):
+        if isinstance(n, ast.For) and _src(n.target) == "maybe_renamed_attr_name":
+            if not (len(n.body) == 2 and isinstance(n.body[1], ast.If) and isinstance(n.body[1].body[-1], ast.Break) and n.orelse):
+                raise T1Unrecognised(file, n.lineno, "unique-key search loop shape")
+            tests.append(_src(n.body[1].test))
+    if len(tests) != 1:
+        raise T1Unrecognised(file, fn[0].lineno, "expected one unique-key search loop")
+    base = "cl_fields[orig_name].default in (NOTHING, MISSING)"
+    if tests[0] == base:
+        skip = False
+    elif tests[0] == base + " and cl_fields[orig_name].init":
+        skip = True
+    else:
+        raise T1Unrecognised(file, fn[0].lineno, f"unique-key condition `{tests[0]}`")
+    src = _src(fn[0])
+    for needle in ("cls_and_attrs.sort(key=lambda c_a: len(c_a[1]), reverse=True)",
+                   "c_and_a[0] is not cl and c_and_a[0] not in uniq_attrs_dict.values()",
+                   "uniq = cl_reqs - other_reqs"):
+        if needle not in src:
+            raise T1Unrecognised(file, fn[0].lineno, f"missing `{needle}`")
+    return {"skip_noninit": skip}
+
+
 def emit_unions(u) -> str:
     return ("(* GENERATED by harness/t1_translate.py from src/cattrs/strategies/_unions.py -- do not edit *)\n"
             f"Definition src_lit_pairs : bool := {_coq_bool(u['literal_pairs'])}.\n")
+
+
+def emit_disambig(d) -> str:
+    return ("(* GENERATED by harness/t1_translate.py from src/cattrs/disambiguators.py -- do not edit *)\n"
+            f"Definition src_dis_skip_noninit : bool := {_coq_bool(d['skip_noninit'])}.\n")
 
 
 def main():
@@ -787,6 +822,15 @@ def main():
         summary["ok"] = False
         summary["errors"].append(str(e))
         summary["sections"]["unions"] = False
+    try:
+        dis = translate_disambig(repo)
+        write("DisSrc.v", emit_disambig(dis))
+        summary["disambig"] = dis
+        summary["sections"]["disambig"] = True
+    except T1Unrecognised as e:
+        summary["ok"] = False
+        summary["errors"].append(str(e))
+        summary["sections"]["disambig"] = False
     print(json.dumps(summary))
     return 0 if summary["ok"] else 3
 
